@@ -38,6 +38,11 @@ def main() -> int:
         j = run.job(d, want=["manifest"], plan={"fn": "c10", "args": {"seed": seed()}}, cfg={"literal_enums": label.endswith(("1", "3"))})
         info[j["id"]] = (label, {"sharing"})
         jobs.append(j)
+    for label, d in docs.shared_enum_param_docs():
+        for le in (False, True):
+            j = run.job(d, want=["manifest"], plan={"fn": "c10", "args": {"seed": seed()}}, cfg={"literal_enums": le})
+            info[j["id"]] = (label, {"shared_enum_params", "le" if le else "enum"})
+            jobs.append(j)
     for k_, (label, d) in enumerate(docs.interplay_docs()):
         if not d["components"]["schemas"] or (quick and k_ % 4 and "typed_nullable" not in label and "redeclared_required" not in label) or any(x_ in label for x_ in ("named_Union", "named_Unset")):
             continue
@@ -131,6 +136,21 @@ def main() -> int:
                         if ewant != want:
                             vd.violation(f"reencode_state:{want}->{ewant}" + (":" + flags[0] if flags else ""), f"{name}.{p['name']}: {want} in the input, {ewant} after re-encoding", w)
                     ev.seen(("C10state", want, p["kind"], p["required"]))
+            elif a["a"] == "call":
+                # parameters on the wire: a passed value (however falsy) is transmitted, an omitted optional one is not
+                from ..harness import with_followups
+                for a2, x2 in with_followups([(a, x)]):
+                    for variant, vr in (x2 or {}).items():
+                        reqs = (vr or {}).get("requests") or [] if isinstance(vr, dict) else []
+                        if len(reqs) != 1:
+                            continue
+                        ev.count("parameter_state_requests_checked")
+                        for eff_, det in expect.check_request(reqs[0], a2["x"]):
+                            parts = eff_.split(":")
+                            if parts[0] in ("missing", "extra") and len(parts) > 1 and parts[1] in ("query", "header", "cookie"):
+                                nonstr_ = set(a2["x"].get("nonstr") or [])
+                                mech_ = ":non_string_value(C03)" if parts[0] == "missing" and (parts[1] in nonstr_ or any(n_.startswith(parts[1] + ":") for n_ in nonstr_)) else ""
+                                vd.violation(f"param_state:{'present->absent' if parts[0] == 'missing' else 'absent->present'}:{parts[1]}{mech_}", f"{a2['module']}.{variant}: {det}", {"doc": doc, "module": a2["module"], "args": a2.get("args"), "x": a2["x"]})
             elif a["a"] == "endpoint_info":
                 xx = a["x"]
                 if xx.get("unmatched"):
